@@ -123,6 +123,16 @@ theorem history_refines {idx : Nat → Nat → Nat} (hidx : IdxOk idx) (ops : Li
   obtain ⟨h1, h2⟩ := history_spec hidx ops m inv
   exact ⟨h1, h2, fun k => get_eq_abs hidx h1 k⟩
 
+/-- **`& mask` is `% len`.** Along every history from `NewUInt64Map` the table
+length is a power of two, and for such a length the code's `x & mask`
+(`mask = len-1`: `primaryIndex`, `offset & mask`) equals the model's `x % len`
+and `(i+1) & mask` equals the model's `next`. -/
+theorem table_length_power_of_two {idx : Nat → Nat → Nat} (hidx : IdxOk idx) (capacity : Nat) (ops : List (Op V)) :
+    Pow2 (ops.foldl (step idx) (UMap.new capacity : UMap V)).data.size ∧
+    ∀ n, Pow2 n → (∀ x, x &&& (n - 1) = x % n) ∧ (∀ i, i < n → next n i = (i + 1) &&& (n - 1)) :=
+  ⟨history_pow2 hidx ops _ (new_spec idx capacity).1 (new_size_pow2 capacity),
+   fun _ h => ⟨mask_eq_mod h, fun _ hi => next_eq_mask h hi⟩⟩
+
 /-! ## SegmentUInt64Map -/
 
 /-- `Get`/`Set`/`Del` on the segmented table refine the abstract map; the
@@ -196,6 +206,11 @@ theorem segmap_pine_clearseg {H : Hashes} (hH : HashOk H) {m : SegMap V} (inv : 
   obtain ⟨p1, p2, _, p4, p5⟩ := seg_pine_spec hH inv k v
   obtain ⟨c1, c2, _⟩ := seg_clearSegment_spec hH inv i
   exact ⟨⟨p1, p2, p4, p5⟩, ⟨c1, c2⟩⟩
+
+/-- `Clear` of the segmented table, executed alone, empties it and zeroes the counter. -/
+theorem segmap_clear {H : Hashes} {m : SegMap V} (inv : SegInv H m) :
+    SegInv H m.clear ∧ (∀ k, sabs H m.clear k = none) ∧ m.clear.len = 0 :=
+  seg_clear_spec inv
 
 /-! ## cache.Cache -/
 
@@ -330,6 +345,11 @@ theorem load_factor_below_one :
     ∀ p ∈ SdnsVerif.Gen.C16.grow_pairs, p.getD 1 0 < p.getD 0 0 := by
   decide
 
+/-- every table length the compiled code produces is a power of two (so `mask = len-1` is a bit mask) -/
+theorem code_table_lengths_are_powers_of_two :
+    ∀ p ∈ SdnsVerif.Gen.C16.grow_pairs, 0 < p.getD 0 0 ∧ p.getD 0 0 &&& (p.getD 0 0 - 1) = 0 := by
+  decide
+
 /-- There is always at least one segment (and `cache.New` uses 256). -/
 theorem segment_counts_positive :
     (∀ n ∈ SdnsVerif.Gen.C16.seg_counts, 0 < n) ∧ (∀ n ∈ SdnsVerif.Gen.C16.cache_segments, 0 < n) := by
@@ -346,10 +366,13 @@ theorem no_global_lock :
 
 /-- Every mutating method of the segmented table and the compare-then-act of
 `CompareAndSwap` / `CompareAndDelete` run under the WRITE lock of the key's
-segment (none takes only a read lock), and the global counter is atomic —
-this is what makes each of them one atomic step of the model. -/
+segment (none takes only a read lock), the global counter is atomic, and the
+other `Cache` methods (Get/Add/Remove/Len/ForEach) only delegate: they touch
+neither a lock nor the counter themselves — this is what makes each
+operation a sequence of `IStep`s. -/
 theorem mutators_hold_write_lock :
-    SdnsVerif.Gen.C16.mutators_without_write_lock = [] ∧ SdnsVerif.Gen.C16.segmap_count_atomic = true := by
+    SdnsVerif.Gen.C16.mutators_without_write_lock = [] ∧ SdnsVerif.Gen.C16.segmap_count_atomic = true ∧
+    SdnsVerif.Gen.C16.cache_wrappers_touching_internals = [] := by
   decide
 
 /-! ## non-vacuity -/
@@ -380,6 +403,10 @@ example : IReach realHashes (⟨SegMap.new 4 0, [0, 0]⟩ : CSt Nat)
     ⟨(SegMap.new 4 0 : SegMap Nat).set realHashes 1 10, [0, 0]⟩ :=
   IReach.step (IReach.refl _)
     ((ops_are_interleaving_steps realHashes_ok (segmap_new_spec realHashes 4 0).1 1 10 [0, 0]).1)
+
+example : Pow2 ((([Op.put 1 1, Op.put 2 2, Op.grow, Op.del 1] : List (Op Nat)).foldl (step lastSlot)
+    (UMap.new 0 : UMap Nat)).data.size) := (table_length_power_of_two lastSlot_ok 0 _).1
+example : (12345 : Nat) &&& (16 - 1) = 12345 % 16 := ((table_length_power_of_two (V := Nat) lastSlot_ok 0 []).2 16 ⟨4, rfl⟩).1 _
 
 example : CReach 2 ⟨2, 0⟩ ⟨2, 0⟩ ∧ CReach 2 ⟨2, 0⟩ ⟨3, 1⟩ :=
   ⟨CReach.refl _, CReach.step (CReach.refl _) (CStep.insert ⟨2, 0⟩ true)⟩
